@@ -265,7 +265,7 @@ def _free_params(shapes, tols, nfree):
         outside=['all deltas symbolic with a positive tolerance (z3 nlsat answers unknown on some branches: measured)'],
         shims=['complex -> SComplex, abs(complex) compared through squares'],
         quick=_free_params(('two', 'tri', 'edge-mid', 'collinear', 'diamond'), (1,), 1),
-        thorough=_free_params(('two', 'tri', 'edge-mid', 'collinear', 'dup', 'diamond', 'penta'), (1, Fr(5, 2)), 1)
+        thorough=_free_params(('two', 'tri', 'edge-mid', 'collinear', 'dup', 'diamond', 'penta'), (1, '5/2'), 1)
         + _free_params(('tri', 'edge-mid', 'diamond'), (1,), 2),
         max_paths=400000, timeout_ms=60000)
 def iup_optimize_tolerance(shape, free, tol):
@@ -276,7 +276,7 @@ def iup_optimize_tolerance(shape, free, tol):
             deltas.append((V.real('dx%d' % i, -50, 50), V.real('dy%d' % i, -50, 50)))
         else:
             deltas.append(FIXED_D[i])
-    _iup_check(coords, deltas, Fr(tol) if not isinstance(tol, int) else tol)
+    _iup_check(coords, deltas, Fr(tol) if not isinstance(tol, int) else tol)      # '5/2' -> Fraction (task parameters must be JSON)
 
 
 # ------------------------------------------------------------------------------------------------ sparse masters (shared with C10)
